@@ -186,9 +186,10 @@ fn gen_case(tape: Vec<u8>) -> Case {
     collect(&model.graph, &Ty::Struct(model.primary.clone()), &model.message, &mut vec![Step::Key("message".into())], &mut positions);
     collect(&model.graph, &Ty::Struct("EIP712Domain".into()), &model.domain, &mut vec![Step::Key("domain".into())], &mut positions);
     // prefer the kind of mutation first, then a position that admits it, so that every kind is frequent
-    let kind = u.below(12);
+    let kind = [0, 1, 2, 3, 3, 4, 4, 4, 5, 6, 7, 8, 9, 10, 11, 12, 12, 13][u.below(18)];
     let admits = |p: &Pos| -> bool {
         match kind {
+            12 | 13 => matches!(p.ty, Ty::Struct(_)),
             0..=2 => matches!(p.ty, Ty::Uint(_) | Ty::Int(_)),
             3 => matches!(p.ty, Ty::BytesN(_)),
             4 => matches!(p.ty, Ty::Array(_, Some(_))),
@@ -230,6 +231,47 @@ fn gen_case(tape: Vec<u8>) -> Case {
     let pos = &positions[cands[u.below(cands.len())]];
     let depth = depth_of(pos);
     let tyname = pos.ty.name();
+    if kind == 12 {
+        // the declaration names one member twice (so that counting declared members and counting properties
+        // can be made to agree) and the value carries as many undeclared members as there are duplicates
+        let Ty::Struct(sname) = &pos.ty else { unreachable!() };
+        let mut dups = 0;
+        if let Some(J::Arr(members)) = at(&mut doc, &[Step::Key("types".into()), Step::Key(sname.clone())]) {
+            if !members.is_empty() {
+                dups = 1 + u.below(2);
+                for _ in 0..dups {
+                    let m = members[u.below(members.len())].clone();
+                    let i = u.below(members.len() + 1);
+                    members.insert(i, m);
+                }
+            }
+        }
+        let extras = dups.max(1);
+        if let Some(J::Obj(kv)) = at(&mut doc, &pos.path) {
+            for e in 0..extras {
+                let name = format!("{}{}", ["undeclared", "extra", "zz", "Name2"][u.below(4)], if e == 0 { String::new() } else { e.to_string() });
+                let name = if kv.iter().any(|(k, _)| *k == name) { format!("zz_undeclared{e}") } else { name };
+                let i = u.below(kv.len() + 1);
+                kv.insert(i, (name, [J::Num("1".into()), J::Null, J::Str("x".into()), J::Obj(vec![])][u.below(4)].clone()));
+            }
+        }
+        return Case { doc: doc.render_styled(style), model: None, mutation: "undeclared-member".into(), ty: tyname, depth, detail: format!("{extras} undeclared next to {dups} duplicated declarations of {sname}"), lenient: false };
+    }
+    if kind == 13 {
+        // one declared member is missing and one undeclared member is present: the property count is right
+        if let Some(J::Obj(kv)) = at(&mut doc, &pos.path) {
+            let removed = if kv.is_empty() { None } else { Some(kv.remove(u.below(kv.len()))) };
+            let name = if kv.iter().any(|(k, _)| k == "undeclared") { "zz_undeclared" } else { "undeclared" };
+            let value = match (&removed, u.bool()) {
+                (Some((_, v)), true) => v.clone(),
+                _ => J::Num("1".into()),
+            };
+            let i = u.below(kv.len() + 1);
+            kv.insert(i, (name.to_string(), value));
+            let what = removed.map(|(k, _)| k).unwrap_or_default();
+            return Case { doc: doc.render_styled(style), model: None, mutation: "missing-member".into(), ty: tyname, depth, detail: format!("{what:?} replaced by an undeclared member"), lenient: false };
+        }
+    }
     let slot = at(&mut doc, &pos.path).expect("path exists in the rendered document");
     let (mutation, detail, conforming): (&str, String, Option<Val>) = match kind {
         0..=2 => {
